@@ -62,8 +62,12 @@ def generate(prop, rng, index, tier):
             if is_int:
                 v = int(round(v * 4))
             vals.append(v)
-        mk = rng.choice(["nomask", "allfalse", "some", "some"])
+        mk = rng.choice(["nomask", "allfalse", "some", "some", "some", "all"]) if g else rng.choice(["nomask", "allfalse", "some", "some"])
         mask = [False] * ncell
+        if is_int and rng.random() < 0.3:
+            vals[rng.randrange(ncell)] = rng.choice([2 ** 53 + 1, -(2 ** 53) - 1, 2 ** 62])   # exact only as integers
+        if mk == "all":
+            mask = [True] * ncell
         if mk == "some":
             for _ in range(rng.randint(1, max(1, ncell // 3))):
                 mask[rng.randrange(ncell)] = True
@@ -224,6 +228,13 @@ def execute(sc):
                         if nm not in ds.variables or tuple(ds.variables[nm].shape) != shape:
                             res.violate("C18.write", "C18.write variable-shape", "variable %s missing or mis-shaped" % nm)
                             return _finish(sc, res)
+                        g0 = next(x for x in sc["grids"] if x["name"] == nm)
+                        kind = ds.variables[nm].dtype.kind
+                        if (g0["dtype"] == "i8") != (kind in "iu"):
+                            res.violate("C18.write", "C18.write element-kind-changed",
+                                        "%s result %s was stored as %s" % ("integer" if g0["dtype"] == "i8" else "float", nm,
+                                                                           ds.variables[nm].dtype))
+                            return _finish(sc, res)
                 res.probe("template dimension variables copied unchanged")
                 if t["crs"]:
                     res.probe("template with CRS variable")
@@ -336,6 +347,8 @@ def _judge(res, g, rd, got, err, union, shape, numpy, MPilotError, tag=""):
     expect_err = None
     if dt in ("Positive Float", "Positive Integer") and any(v < 0 for v in valid):
         expect_err = "InvalidPositiveData"
+    if not valid:
+        res.probe("variable without a single valid cell read")
     if dt == "Fuzzy" and any(v > 1.02 or v < -1.02 for v in valid):
         expect_err = "InvalidFuzzyData"
     if expect_err:
@@ -375,7 +388,7 @@ def _judge(res, g, rd, got, err, union, shape, numpy, MPilotError, tag=""):
         return
     for i, (v, m) in enumerate(zip(vals, union)):
         exp_v = v
-        if want_kind in ("i", "u"):
+        if want_kind in ("i", "u") and not (isinstance(v, int) and abs(v) > 2 ** 53):
             exp_v = float(numpy.rint(v))
         if dt == "Fuzzy":
             exp_v = max(-1.0, min(1.0, v))
@@ -386,6 +399,12 @@ def _judge(res, g, rd, got, err, union, shape, numpy, MPilotError, tag=""):
                         % (i, g["name"], v, m, mv, mask[i]))
             return
         if is_missing:
+            continue
+        if want_kind in ("i", "u") and isinstance(v, int) and abs(v) > 2 ** 53:
+            if int(flat[i]) != v:
+                res.violate("C18.value", "C18.value big-integer-changed %s" % label,
+                            "cell %d of %s: wrote %d, read %d" % (i, g["name"], v, int(flat[i])))
+                return
             continue
         if float(flat[i]) != float(exp_v):
             res.violate("C18.value", "C18.value differs %s" % label,
